@@ -342,7 +342,7 @@ func init() {
 	vh.AddPart("C04", "histories", "sim", vh.Opts{Shards: 16, TimeoutS: 600, TimeoutSThorough: 3400},
 		func(e *vh.Env) []c04Case {
 			var cs []c04Case
-			depth := e.Pick(3, 5)
+			depth := e.Pick(3, 4)
 			for _, st := range allStrategies {
 				for thr := 1; thr <= 4; thr++ {
 					for _, mode := range [][2]bool{{true, true}, {false, true}, {true, false}} {
@@ -354,7 +354,7 @@ func init() {
 						}
 						cr := c
 						cr.Depth = 9
-						cr.Random = e.Pick(30, 300)
+						cr.Random = e.Pick(30, 1000)
 						cs = append(cs, cr)
 					}
 				}
